@@ -67,7 +67,8 @@ const NSUM: usize = 16;
 impl<C: Suite> M14<C> {
     pub fn new(_tier: Tier, seed: u64) -> Self {
         let ka = key_alphabet(seed, true);
-        let sks = [8usize, 10, 9].iter().map(|i| sk_from_be::<C>(&ka.be[*i]).unwrap()).collect();
+        // recipients: two derived keys, a third party, and the edge keys 1, 2, r-1 (proofs and round trips only)
+        let sks = [8usize, 10, 9, 0, 1, 7].iter().map(|i| sk_from_be::<C>(&ka.be[*i]).unwrap()).collect();
         // plaintext scalars: 1, 2, r-1, from_hash("m"), from_hash(seed)
         let mut plains: Vec<SecretKey<C>> = [0usize, 1, 7].iter().map(|i| sk_from_be::<C>(&ka.be[*i]).unwrap()).collect();
         plains.push(SecretKey::<C>::from_hash(b"m"));
@@ -103,6 +104,12 @@ impl<C: Suite> Model for M14<C> {
     }
     fn init(&self) -> Vec<St> {
         let mut v = vec![];
+        for k in [3usize, 4, 5] {
+            for m in 0..5 {
+                v.push(St::Enc { k, m, transport: None });
+                v.push(St::Proof { k, m, dev: None });
+            }
+        }
         for k in 0..2 {
             for m in 0..5 {
                 v.push(St::Enc { k, m, transport: None });
@@ -150,7 +157,7 @@ impl<C: Suite> Model for M14<C> {
                 }
                 a
             }
-            St::Proof { dev: None, .. } => {
+            St::Proof { dev: None, k, .. } if *k < 2 => {
                 use PDev::*;
                 let mut a: Vec<Act> = [C1AddG, C1Identity, C2AddG, C2Identity, SwapC1C2, MpPlus1, MpZero, BpPlus1, BpZero, ChPlus1, ChZero, SwapMpBp, SwapMpCh, SwapBpCh, PkOther, PkIdentity, WrongSk].iter().map(|d| Act::PDev(*d)).collect();
                 for c in [Codec::Bytes, Codec::Bare, Codec::Json] {
